@@ -63,4 +63,51 @@ def calSpec {ν : Type} (fs : Nat → Table ν) (ver : Nat → Option Nat) (r : 
   { value := mergeCustom (fs r.file r.sat) r.custom,
     version := if r.custom.isEmpty then ver r.file else none }
 
+/-! ### Files that change on disk during a history
+
+The cache is keyed by the file NAME (`cls.default_file != coeffs_file`), so what a request sees depends on
+when a file was written.  `World` carries the file system as it is at each moment. -/
+
+/-- One event of a history: a coefficient request, or a file being (re)written on disk with a new
+content (and the version name, if any, that its new md5 is registered under). -/
+inductive Ev (ν : Type) where
+  | req (r : Req ν)
+  | write (file : Nat) (t : Table ν) (v : Option Nat)
+
+structure World (ν : Type) where
+  fs : Nat → Table ν
+  ver : Nat → Option Nat
+  cache : Option (Cache ν)
+
+def World.write {ν : Type} (w : World ν) (file : Nat) (t : Table ν) (v : Option Nat) : World ν :=
+  { w with fs := fun g => if g = file then t else w.fs g,
+           ver := fun g => if g = file then v else w.ver g }
+
+def dynStep {ν : Type} (w : World ν) : Ev ν → World ν × Option (CoeffResult ν)
+  | .req r =>
+    let (c, o) := calStep w.fs w.ver w.cache r
+    ({ w with cache := c }, some o)
+  | .write f t v => (w.write f t v, none)
+
+/-- Run a history of events; one output slot per event (`none` for a write). -/
+def dynRun {ν : Type} : World ν → List (Ev ν) → World ν × List (Option (CoeffResult ν))
+  | w, [] => (w, [])
+  | w, e :: es =>
+    let (w1, o) := dynStep w e
+    let (w2, os) := dynRun w1 es
+    (w2, o :: os)
+
+/-- The world in which event `i` of the history takes place. -/
+def worldAt {ν : Type} : World ν → List (Ev ν) → Nat → World ν
+  | w, _, 0 => w
+  | w, [], _ + 1 => w
+  | w, e :: es, i + 1 => worldAt (dynStep w e).1 es i
+
+/-- A write is *visible* when the file written is not the one the cache is labelled with. -/
+def writeVisible {ν : Type} (w : World ν) : Ev ν → Bool
+  | .req _ => true
+  | .write f _ _ => match w.cache with
+    | none => true
+    | some c => c.file != f
+
 end PygacModel
